@@ -78,6 +78,7 @@ def absEv (T : Tables) (A : Abs) : Ev → Option Abs
   | .readC k => some (absRead T A k)
   | .changedAdd => if A.chgSet then some A else none
   | .changedDiscard => if A.chgSet then some A else none
+  | .changedAttr => if A.chgSet && A.bk == .set then some A else none
   | .changedNone => some { A with chgSet := true }
   | .changedRead => if A.chgSet then some A else none
   | .backupRead => if A.bk = .set then some A else none
